@@ -160,6 +160,12 @@ func (pc *PodCache) onEvent(old, pod *v1.Pod, ev model.Event) error {
 	}
 
 	key := config.NamespacedName(pod)
+	if ev != model.EventDelete {
+		// EndpointSlices look pods up by name (see getPod), so a slice that was handled before this
+		// pod was known is waiting for the pod to arrive, not for it to become ready. Replay it now;
+		// otherwise its (possibly not ready) endpoints stay missing until the pod turns ready.
+		pc.queueWaitingEndpointEvents(ip)
+	}
 	switch ev {
 	case model.EventAdd:
 		if shouldPodBeInEndpoints(pod) && IsPodReady(pod) {
@@ -291,6 +297,20 @@ func (pc *PodCache) addPod(pod *v1.Pod, ip string, key types.NamespacedName, lab
 	pc.Unlock()
 
 	pc.proxyUpdates(pod, false)
+}
+
+// queueWaitingEndpointEvents queues an endpoint event for every endpoint that was registered with
+// queueEndpointEventOnPodArrival for this IP.
+func (pc *PodCache) queueWaitingEndpointEvents(ip string) {
+	pc.Lock()
+	defer pc.Unlock()
+	if endpointsToUpdate, f := pc.needResync[ip]; f {
+		delete(pc.needResync, ip)
+		for epKey := range endpointsToUpdate {
+			pc.queueEndpointEvent(epKey)
+		}
+		endpointsPendingPodUpdate.Record(float64(len(pc.needResync)))
+	}
 }
 
 // queueEndpointEventOnPodArrival registers this endpoint and queues endpoint event
